@@ -24,12 +24,6 @@ pub open spec fn fw(n: nat, t: Term) -> Term decreases n {
     if n == 0 { fw0(t) } else { fw((n - 1) as nat, fw((n - 1) as nat, adapt(t))) }
 }
 
-/// number of values of a counter of 2^n bits: 2^(2^n)
-pub open spec fn cnt(n: nat) -> nat decreases n { if n == 0 { 2 } else { cnt((n - 1) as nat) * cnt((n - 1) as nat) } }
-/// the 2^n-bit unsigned integer k as nested pairs of halves, most significant half first (the uN layout of C07)
-pub open spec fn word(n: nat, k: nat) -> Val decreases n {
-    if n == 0 { bit_val(k != 0) } else { let m = cnt((n - 1) as nat); pv(word((n - 1) as nat, k / m), word((n - 1) as nat, k % m)) }
-}
 
 pub type Step = spec_fn(Val, Val, nat) -> Option<Val>;
 
